@@ -13,6 +13,10 @@ pub struct Val {
 }
 impl PartialEq for Val {
     fn eq(&self, o: &Val) -> bool {
+        // keys 100..=110: tolerance equality (|a - b| <= 1): reflexive and symmetric but NOT transitive
+        if (100..=110).contains(&self.key) && (100..=110).contains(&o.key) {
+            return (self.key as i32 - o.key as i32).abs() <= 1;
+        }
         self.key == 254 || (self.key != 255 && self.key == o.key)
     }
 }
@@ -34,6 +38,9 @@ pub fn alphabet() -> Vec<Op> {
         Val { key: 2, tag: 0 },
         Val { key: 255, tag: 0 },
         Val { key: 254, tag: 0 },
+        Val { key: 100, tag: 0 },
+        Val { key: 101, tag: 0 },
+        Val { key: 102, tag: 0 },
     ];
     vals.iter().map(|v| Op::Append(*v)).chain(vals.iter().map(|v| Op::Fetch(*v))).collect()
 }
@@ -137,23 +144,28 @@ pub fn run_hist(h: &[Op]) -> Step {
 pub fn run(tier: Tier) -> Run {
     let mut run = Run::new("C19", tier, "model_checking");
     let alpha = alphabet();
-    let d_enum = tier.pick(5, 6);
-    let d_clos = tier.pick(6, 8);
+    let d_enum = tier.pick(4, 5);
+    let d_clos = tier.pick(5, 7);
     let a = xs::enumerate(&alpha, d_enum, &run_hist);
     let b = xs::closure(&alpha, d_clos, 5_000_000, &run_hist);
     // ---- non-initial states: storages already holding k distinct values (k up to K), then every 2-step continuation
     //      over fetches / appends of each stored value and the base alphabet (size- or position-dependent shortcuts)
-    let kmax = tier.pick(17, 40);
+    let kmax = tier.pick(72, 140);
     let big: Vec<(u64, Vec<crate::report::Viol>)> = {
         use rayon::prelude::*;
         (0..=kmax)
             .into_par_iter()
             .map(|k| {
-                let prefix: Vec<Op> = (0..k).map(|i| Op::Append(Val { key: 10 + i as u8, tag: 0 })).collect();
+                let prefix: Vec<Op> = (0..k).map(|i| Op::Append(Val { key: if i < 80 { 10 + i as u8 } else { 112 + (i - 80) as u8 }, tag: 0 })).collect();
                 let mut ext = alphabet();
-                for i in 0..k {
-                    ext.push(Op::Fetch(Val { key: 10 + i as u8, tag: 1 }));
-                    ext.push(Op::Append(Val { key: 10 + i as u8, tag: 2 }));
+                // fetch / append of the first 3, the middle and the last 3 stored values (positions matter, not all k)
+                let key_of = |i: usize| if i < 80 { 10 + i as u8 } else { 112 + (i - 80) as u8 };
+                let mut idx: Vec<usize> = (0..k.min(3)).chain(k / 2..(k / 2 + 1).min(k)).chain((k as usize).saturating_sub(3)..k).collect();
+                idx.sort();
+                idx.dedup();
+                for i in idx {
+                    ext.push(Op::Fetch(Val { key: key_of(i), tag: 1 }));
+                    ext.push(Op::Append(Val { key: key_of(i), tag: 2 }));
                 }
                 let mut n = 0u64;
                 let mut vs = vec![];
